@@ -9,7 +9,7 @@ shard=${2:-0}; nshards=${3:-1}; k=-1
 for d in /verif/seeded/*/; do
   name=$(basename "$d")
   k=$((k+1)); [ $((k % nshards)) -ne "$shard" ] && continue
-  prop=$(/venv/bin/python -c "import json,sys; print(json.load(open('$d/meta.json'))['property'])" 2>/dev/null | tail -1)
+  prop=$(/venv/bin/python -c "import json,sys; m=json.load(open('$d/meta.json')); print(m.get('caught_by') or m['property'])" 2>/dev/null | tail -1)
   out=$(LINES_OUT=400 /verif/tools/try_seed.sh "$prop" "$d/patch.diff" "$tier" 2>&1)
   rc=$(echo "$out" | grep -a -o "exit=[0-9]*" | tail -1)
   nv=$(echo "$out" | grep -a -c "^VIOLATION")
